@@ -18,9 +18,10 @@ class Adaptive(TracingScript):
        (stall: a frame's length prefix and part of its body, then silence on an open connection: the networking thread
         sits in a blocking read, not in select)"""
 
-    def __init__(self, run, behaviour, version=VERSION):
+    def __init__(self, run, behaviour, version=VERSION, comp=None):
         TracingScript.__init__(self, run, Profile(version), [])
         self.behaviour = behaviour
+        self.comp = comp        # threshold the server announces during login (None: no compression)
         if behaviour == 'close_early':
             self.steps = [('close',)]
         else:
@@ -36,7 +37,10 @@ class Adaptive(TracingScript):
             else:
                 self.steps += [('send', prof.status_response(P.status_json(protocol=VERSION)))]
             return
-        steps = [('send', prof.login_success(bytes(range(16)), 'verif')), ('call', lambda s: setattr(s, 'state', 'play'))]
+        steps = []
+        if self.comp is not None:
+            steps += [('send', prof.login_compress(self.comp)), ('compress', self.comp)]
+        steps += [('send', prof.login_success(bytes(range(16)), 'verif')), ('call', lambda s: setattr(s, 'state', 'play'))]
         if b == 'disc':
             steps += [('send', prof.keep_alive(5)), ('send', prof.play_disconnect('{"text":"bye"}'))]
         elif b == 'close':
@@ -48,7 +52,7 @@ class Adaptive(TracingScript):
         elif b == 'keepalive':
             steps += [('send', prof.keep_alive(9)), ('send', prof.keep_alive(10))]
         elif b == 'stall':
-            whole = P.frame(prof.time_update(3, 3), None)
+            whole = P.frame(prof.time_update(3, 3), self.comp)
             steps += [('send', prof.keep_alive(11)), ('raw', whole[:len(whole) - 5])]
         self.steps += steps
 
@@ -92,7 +96,8 @@ def execute(spec, policy, seed=0, step_budget=40000):
         b = servers[idx] if idx < len(servers) else 'idle'
         if b == 'refuse':
             return None
-        return Adaptive(run, b)
+        comps = spec.get('comp') or []
+        return Adaptive(run, b, comp=comps[idx] if idx < len(comps) else None)
     run.serve(factory)
     state = {'reconnects': 0, 'hreconnects': 0}
 
@@ -178,6 +183,7 @@ def random_spec(rng, users=2, maxops=3):
     return {
         'programs': progs,
         'servers': [rng.choice(SERVERS) for _ in range(8)],
+        'comp': [rng.choice([None, None, 0, 64]) for _ in range(8)],      # per TCP connection: threshold announced at login
         'listener_reconnect': rng.random() < 0.35,
         'early': rng.random() < 0.5,
         'handler_reconnect': rng.random() < 0.3,
